@@ -1,6 +1,8 @@
 package main
 
 import (
+	spendingtypes "github.com/KiraCore/sekai/x/spending/types"
+	authtypes "github.com/cosmos/cosmos-sdk/x/auth/types"
 	"fmt"
 	"math/big"
 	"strings"
@@ -16,6 +18,7 @@ type collH struct {
 	ms  colltypes.MsgServer
 	maxLock map[string]uint64 // coll|acct -> longest lock accepted since the contributor's last withdrawal
 	don map[string]*big.Int // oracle ledger: coll|acct|denom -> net amount moved to the donation account for this contributor
+	slack map[string]int64 // collective -> units its reward distributions may have handed out beyond the rewards (rounding finding)
 }
 
 func (c *collH) collStr(name string) string {
@@ -130,7 +133,15 @@ func (c *collH) create(t int64, who int, name string, bonds []sdk.Coin, any bool
 	}
 	err := withCache(h.at(t), func(cc sdk.Context) error { _, e := c.ms.CreateCollective(sdk.WrapSDKContext(cc), msg); return e })
 	out := cls(err)
-	line := fmt.Sprintf("coll create t=%d a=%d name=%s bonds=%s npools=%d cp=%d any=%s dr=%s da=%s", t, who, name, h.rawCoinsStr(bonds), npools, cp, c18b01(any), c18u64s(dr), idxStr(da))
+	var pw []string
+	for _, sp := range msg.SpendingPools {
+		pw = append(pw, sp.Name+":"+sp.Weight.BigInt().String())
+	}
+	pools := "-"
+	if len(pw) > 0 {
+		pools = strings.Join(pw, ",")
+	}
+	line := fmt.Sprintf("coll create t=%d a=%d name=%s bonds=%s npools=%d cp=%d any=%s dr=%s da=%s pools=%s cs=%d ce=%d", t, who, name, h.rawCoinsStr(bonds), npools, cp, c18b01(any), c18u64s(dr), idxStr(da), pools, msg.ClaimStart, msg.ClaimEnd)
 	h.r.Op(line, out)
 	h.r.Count("coll:create:" + out)
 	a := c.snap(name)
@@ -344,10 +355,125 @@ func (c *collH) setDonations(name string, from int, coins sdk.Coins) {
 	c.obs(name, from)
 }
 
+// reward: x/multistaking records staking rewards for the collective's account (side "c") or its donation account ("d");
+// `from` pays the same coins into the fee collector, which is where ClaimRewards takes them from
+func (c *collH) reward(name, side string, from int, coins sdk.Coins) {
+	h := c.h
+	col := colltypes.Collective{Name: name}
+	addr := col.GetCollectiveAddress()
+	if side == "d" {
+		addr = col.GetCollectiveDonationAddress()
+	}
+	err := withCache(h.ctx, func(cc sdk.Context) error {
+		if e := h.w.app.BankKeeper.SendCoinsFromAccountToModule(cc, h.acc[from], authtypes.FeeCollectorName, coins); e != nil {
+			return e
+		}
+		h.w.app.MultiStakingKeeper.SetDelegatorRewards(cc, addr, coins)
+		return nil
+	})
+	h.r.Op(fmt.Sprintf("coll reward name=%s side=%s from=%d coins=%s", name, side, from, h.rawCoinsStr(coins)), cls(err))
+	h.r.Count("coll:reward:" + cls(err))
+}
+
+// endBlock: the collectives EndBlocker at block time t, with the oracles of C18 / C03 on what it may do to contributors
+func (c *collH) endBlock(t int64, names []string) string {
+	h := c.h
+	ck, bk := h.w.app.CollectivesKeeper, h.w.app.BankKeeper
+	type ccB struct {
+		name string
+		who  int
+		cc   colltypes.CollectiveContributor
+		bal  sdk.Coins
+	}
+	var before []ccB
+	for _, n := range names {
+		for i := range h.acc {
+			if cc := ck.GetCollectiveContributer(h.ctx, n, h.acc[i].String()); cc.Name != "" {
+				before = append(before, ccB{n, i, cc, bk.GetAllBalances(h.ctx, h.acc[i])})
+			}
+		}
+	}
+	err := withCache(h.at(t), func(cc sdk.Context) error { ck.EndBlocker(cc); return nil })
+	out := cls(err)
+	line := fmt.Sprintf("coll endblock t=%d", t)
+	h.r.Op(line, out)
+	h.r.Count("coll:endblock:" + out)
+	for _, n := range names {
+		var whos []int
+		for _, b := range before {
+			if b.name == n {
+				whos = append(whos, b.who)
+			}
+		}
+		c.obs(n, whos...)
+	}
+	h.r.Op("coll obs fee", h.coinsStr(bk.GetAllBalances(h.ctx, h.w.app.AccountKeeper.GetModuleAddress(authtypes.FeeCollectorName))))
+	h.r.Op("spend obs pool name=rich", h.poolStr(h.w.app.SpendingKeeper.GetSpendingPool(h.ctx, "rich")))
+	h.r.Op("spend obs mod", h.coinsStr(bk.GetAllBalances(h.ctx, h.w.app.AccountKeeper.GetModuleAddress(spendingtypes.ModuleName))))
+	if err != nil {
+		h.r.Fail("C06/collectives-endblock/panic", fmt.Sprintf("%s: %v", line, err), []string{line})
+		return out
+	}
+	// per contributor: either its record is untouched (the collective lives on), or the collective was dissolved and it
+	// received exactly what it had bonded - nobody signed anything in this block
+	received := map[int]sdk.Coins{}
+	owed := map[int]sdk.Coins{}
+	for _, b := range before {
+		now := ck.GetCollectiveContributer(h.ctx, b.name, h.acc[b.who].String())
+		gone := ck.GetCollective(h.ctx, b.name).Name == ""
+		h.r.Count(fmt.Sprintf("coll:endblock:contributor:dissolved=%v", gone))
+		if !gone {
+			if now.Name == "" || !sdk.Coins(now.Bonds).IsEqual(sdk.Coins(b.cc.Bonds)) {
+				h.r.Fail("C18/coll-endblock/contributor-record-changed", fmt.Sprintf("%s: collective %s lives on; the record of contributor %d was %v and is %v", line, b.name, b.who, b.cc.Bonds, now.Bonds), []string{line})
+			}
+			continue
+		}
+		owed[b.who] = owed[b.who].Add(b.cc.Bonds...)
+		received[b.who] = bk.GetAllBalances(h.ctx, h.acc[b.who]).Sub(b.bal...)
+	}
+	for who, o := range owed {
+		if !received[who].IsEqual(o) {
+			h.r.Fail("C18/coll-endblock/dissolved-without-returning-the-bonds", fmt.Sprintf("%s: contributor %d had bonded %s in the dissolved collectives and received %s", line, who, o, received[who]), []string{line})
+		}
+	}
+	// a collective that lives on still holds what its contributors bonded (in its two accounts together)
+	for _, n := range names {
+		col := ck.GetCollective(h.ctx, n)
+		if col.Name == "" {
+			continue
+		}
+		need := sdk.NewCoins()
+		for i := range h.acc {
+			if cc := ck.GetCollectiveContributer(h.ctx, n, h.acc[i].String()); cc.Name != "" {
+				need = need.Add(cc.Bonds...)
+			}
+		}
+		have := bk.GetAllBalances(h.ctx, col.GetCollectiveAddress()).Add(bk.GetAllBalances(h.ctx, col.GetCollectiveDonationAddress())...)
+		// every distribution may hand out up to half a unit per spending pool and denomination more than it claimed (recorded
+		// finding: the portions are rounded one by one); anything beyond that is not explained by it
+		c.slack[n] += int64(len(col.SpendingPools)+1) / 2
+		if !have.IsAllGTE(need) {
+			what := fmt.Sprintf("%s: the accounts of collective %s hold %s, its contributors bonded %s", line, n, have, need)
+			within := true
+			for _, nc := range need {
+				if short := nc.Amount.Sub(have.AmountOf(nc.Denom)); short.IsPositive() && short.GT(sdk.NewInt(c.slack[n])) {
+					within = false
+				}
+			}
+			if within {
+				h.r.Known("C18/collectives-distribution/rounded-portions-exceed-rewards", what)
+			} else {
+				h.r.Fail("C18/coll-endblock/bonds-no-longer-held", what, []string{line})
+			}
+		}
+	}
+	return out
+}
+
 func (h *h18) collScenarios() {
 	r := h.r
 	r.Mark("collectives")
-	c := &collH{h: h, ms: collectiveskeeper.NewMsgServerImpl(h.w.app.CollectivesKeeper), don: map[string]*big.Int{}}
+	c := &collH{h: h, ms: collectiveskeeper.NewMsgServerImpl(h.w.app.CollectivesKeeper), don: map[string]*big.Int{}, slack: map[string]int64{}}
 	T := h.t0 + 4000000
 	np := h.w.app.CustomGovKeeper.GetNetworkProperties(h.ctx)
 	r.Op(fmt.Sprintf("coll props maxout=%d minperiod=%d minbond=%d", np.MaxCollectiveOutputs, np.MinCollectiveClaimPeriod, np.MinCollectiveBond), "ok")
@@ -462,4 +588,60 @@ func (h *h18) collScenarios() {
 			c.withdraw(t, who, "rc", nil)
 		}
 	}
+	c.endBlockStrand(t+1000, minB)
+}
+
+// endBlockStrand: the collectives EndBlocker. An active collective whose account earns staking rewards in the very
+// denominations its contributors bonded (rewards go to the spending pool by weight - the bonds stay), a donation account
+// with rewards of its own, and an under-bonded collective that is dissolved once the minimum bonding time has passed
+// (every contributor gets back both portions of what it bonded, also when a portion of a tiny bond rounds to zero).
+func (c *collH) endBlockStrand(T int64, minB int64) {
+	h := c.h
+	r := h.r
+	r.Mark("collectives: end of block")
+	np := h.w.app.CustomGovKeeper.GetNetworkProperties(h.ctx)
+	r.Op(fmt.Sprintf("coll props maxout=%d minperiod=%d minbond=%d minbt=%d", np.MaxCollectiveOutputs, np.MinCollectiveClaimPeriod, np.MinCollectiveBond, np.MinCollectiveBondingTime), "ok")
+	rnd := r.Rng
+	names := []string{"eb1", "eb2", "eb3"}
+	c.create(T, 1, "eb1", []sdk.Coin{c18coin("ueth", 50), c18coin("ukex", minB)}, true, nil, nil, 2, np.MinCollectiveClaimPeriod)
+	c.create(T, 2, "eb2", []sdk.Coin{c18coin("ueth", 4), c18coin("ukex", minB/10+int64(rnd.Intn(1000)))}, true, nil, nil, 1, np.MinCollectiveClaimPeriod) // under-bonded
+	c.create(T, 3, "eb3", []sdk.Coin{c18coin("ukex", minB/5)}, true, nil, nil, 3, np.MinCollectiveClaimPeriod)                                                 // under-bonded, one contributor
+	c.bond(2, "eb1", []sdk.Coin{c18coin("ukex", 500000)})                                      // a plain-token bond in a denomination that also arrives as reward
+	c.bond(3, "eb1", []sdk.Coin{c18coin("frozen", 9), c18coin("ueth", 10)})
+	c.bond(4, "eb2", []sdk.Coin{c18coin("frozen", 4), c18coin("ukex", 1_000_000)})             // two denominations, one tiny
+	c.bond(5, "eb2", []sdk.Coin{c18coin("ueth", int64(1 + rnd.Intn(9)))})
+	dons := []string{"0.1", "0.5", "0.25", "0.333333333333333333", "0.9", "0.000000000000000001"}
+	c.donate(T, 4, "eb2", 0, dec(dons[rnd.Intn(len(dons))]), false)
+	c.donate(T, 2, "eb2", 0, dec(dons[rnd.Intn(len(dons))]), false)
+	c.donate(T, 3, "eb1", uint64(T+50_000_000), dec(dons[rnd.Intn(len(dons))]), false)
+	if rnd.Intn(2) == 0 {
+		c.donate(T, 5, "eb2", 0, dec(dons[rnd.Intn(len(dons))]), rnd.Intn(2) == 0)
+	}
+	// witness of distribution_rounding_counterexample: 7 ueth of rewards, two pools of weight one half: 4 + 4 leave
+	c.reward("eb1", "c", 6, sdk.NewCoins(c18coin("ueth", 7)))
+	c.endBlock(T+1, names)
+	t := T + 1
+	for i := 0; i < 8; i++ {
+		t += int64(1 + rnd.Intn(int(np.MinCollectiveClaimPeriod)+5))
+		if rnd.Intn(3) > 0 {
+			c.reward("eb1", "c", 6, sdk.NewCoins(c18coin("ukex", int64(1+rnd.Intn(5000))), c18coin("ueth", int64(rnd.Intn(30)))))
+		}
+		if rnd.Intn(3) == 0 {
+			c.reward("eb1", "d", 6, sdk.NewCoins(c18coin("ueth", int64(1+rnd.Intn(20)))))
+		}
+		if rnd.Intn(4) == 0 {
+			c.reward("eb2", "c", 7, sdk.NewCoins(c18coin("ukex", int64(1+rnd.Intn(900)))))
+		}
+		c.endBlock(t, names)
+		if rnd.Intn(3) == 0 {
+			c.bond(2+rnd.Intn(4), "eb1", []sdk.Coin{c18coin("ukex", int64(1+rnd.Intn(100000)))})
+		}
+	}
+	// … and once the minimum bonding time has passed: the under-bonded collectives are dissolved
+	t = T + int64(np.MinCollectiveBondingTime) - 1
+	c.endBlock(t, names)
+	c.reward("eb2", "c", 7, sdk.NewCoins(c18coin("ukex", 777)))
+	c.endBlock(t+1, names)
+	c.endBlock(t+2, names)
+	c.withdraw(t+3, 2, "eb1", nil)
 }
